@@ -915,6 +915,7 @@ func checkC19(e *Engine, r *Report) {
 	}
 
 	checkSplitKeysFormat(e, r, pkgExpr)
+	checkResolveRef(e, r, pkgExpr)
 
 	// ---- rule 4: weight clamp ------------------------------------------------------------
 	if av := r.Anchor(pkgCA, "Affinity.Validate"); av != nil {
